@@ -131,6 +131,17 @@ Theorem C04_decode_with_never_panics : forall e p b,
 Proof. exact decode_with_never_panics. Qed.
 Print Assumptions C04_decode_with_never_panics.
 
+(* MAX, PARTIAL.  Full statement wanted: decode_with e VP_MAX b agrees with C04's decode_max e b on every byte
+   string.  Proved for results whose figures are within MAX's limits (depth <= 402, the others <= usize::MAX);
+   missing: that every decoder result has such figures (the depth bound is enforced by from_ast on
+   CodecExt.tree_height, not related to ExtModel's field here; the other figures are usize values in the
+   code but unbounded in ExtModel).  Row 0 of every sampled byte string of the tie compares exactly this. *)
+Theorem C04_decode_with_max_partial : forall e b m,
+  decode_max e b = OOk m -> (forall l, within l VP_MAX (facts_of (d_ctx e) (d_ke e) m)) ->
+  decode_with e VP_MAX b = DpOk m.
+Proof. exact decode_with_max_partial. Qed.
+Print Assumptions C04_decode_with_max_partial.
+
 (* non-vacuity: a sane script is accepted under SANE, CONSENSUS and MAX with the same result; a
    script repeating a key is accepted by decode_consensus and refused by decode with DuplicateKeys;
    a lexer error wins over every validation error *)
